@@ -30,6 +30,18 @@ func genName(rng *hx.Rng, made []string) string {
 			}
 		case 2:
 			return n + "/"
+		case 3:
+			// the case twin of an existing name or of one of its ancestors: another mailbox altogether
+			t := n
+			if i := strings.Index(n, "/"); i > 0 && rng.Bool() {
+				t = n[:i]
+			}
+			if u := strings.ToUpper(t); u != t && u != "INBOX" {
+				return u
+			}
+			if l := strings.ToLower(t); l != t && l != "inbox" {
+				return l
+			}
 		}
 		return n
 	}
